@@ -51,55 +51,79 @@ Definition c27_agree (c : c27_case) : bool :=
 
 (* ---------- C28 ---------- *)
 
-(* a mesh of n nodes, undirected links, (node, channel) subscriptions, a list of
-   publishes (origin, channel); observed per publish: the number of handler
-   invocations at every node 0..n-1 (one subscription with one handler per
-   subscribed channel) and the packets carrying the message per directed link *)
+(* events of a mesh history, all issued while the mesh is quiescent *)
+Inductive mev :=
+| EPub (o ch : nat)       (* node o publishes on ch; the harness waits for quiescence *)
+| EDown (u v l : nat)     (* link l between u and v is closed; both sessions end *)
+| EUp (u v l : nat).      (* link l between u and v is (re-)established and the subscriptions are announced over it *)
+
+(* a mesh of n nodes, links (u, v, link id) - several links may join the same
+   two nodes -, (node, channel) subscriptions, a history; observed per publish:
+   the number of handler invocations at every node 0..n-1 (one subscription
+   with one handler per subscribed channel) and the packets carrying the
+   message per directed link (u, v, link id, count) *)
 Inductive c28_case :=
-| Mesh28 (n : nat) (edges : list (nat * nat)) (subs : list (nat * nat)) (pubs : list (nat * nat))
-         (handed : list (list nat)) (wire : list (list (nat * nat * nat))).
+| Mesh28 (n : nat) (links : list (nat * nat * nat)) (subs : list (nat * nat)) (evs : list mev)
+         (handed : list (list nat)) (wire : list (list (nat * nat * nat * nat))).
 
-Definition mesh_pc (edges : list (nat * nat)) (subs : list (nat * nat)) : list (nat * nat * nat) :=
-  flat_map (fun e =>
-    map (fun s => (fst e, snd e, snd s)) (filter (fun s => Nat.eqb (fst s) (snd e)) subs) ++
-    map (fun s => (snd e, fst e, snd s)) (filter (fun s => Nat.eqb (fst s) (fst e)) subs)) edges.
+Definition link_pc (subs : list (nat * nat)) (u v l : nat) : list pce :=
+  map (fun s => PC u v l (snd s)) (filter (fun s => Nat.eqb (fst s) v) subs) ++
+  map (fun s => PC v u l (snd s)) (filter (fun s => Nat.eqb (fst s) u) subs).
 
-Definition mesh_init (edges : list (nat * nat)) (subs : list (nat * nat)) : net :=
-  Net [] [] [] (mesh_pc edges subs) subs.
+Definition mesh_init (links : list (nat * nat * nat)) (subs : list (nat * nat)) : net :=
+  Net [] [] []
+      (flat_map (fun e => let '(u, v, l) := e in link_pc subs u v l) links)
+      subs
+      (flat_map (fun e => let '(u, v, l) := e in [LK u v l; LK v u l]) links).
 
-Definition wire_count (w : list (nat * nat * nat)) (u v : nat) : nat :=
-  fold_left (fun acc e => if Nat.eqb (fst (fst e)) u && Nat.eqb (snd (fst e)) v then (acc + snd e)%nat else acc) w 0%nat.
+Definition wire_count (w : list (nat * nat * nat * nat)) (u v l : nat) : nat :=
+  fold_left (fun acc e => let '(a, b, c, k) := e in
+                          if Nat.eqb a u && Nat.eqb b v && Nat.eqb c l then (acc + k)%nat else acc) w 0%nat.
+
+Definition wire_count_peer (w : list (nat * nat * nat * nat)) (u v : nat) : nat :=
+  fold_left (fun acc e => let '(a, b, c, k) := e in
+                          if Nat.eqb a u && Nat.eqb b v then (acc + k)%nat else acc) w 0%nat.
 
 (* schedule independent facts about the packets of one message m at quiescence:
-   at most one copy per directed link, only from holders to announced peers
-   other than the origin; the origin wrote to all of them; every other holder u
-   wrote to all of them but one, its previous hop, which wrote to u - or to all
-   of them when its previous hop is the origin itself *)
-Definition wire_ok (n : nat) (s : net) (m : msg) (w : list (nat * nat * nat)) : bool :=
+   at most one copy per directed link, only from holders over sessions that
+   are up to announced tuples whose peer is not the origin; the origin wrote to
+   all of them; every other holder u left out exactly the tuples of one peer,
+   its previous hop, which wrote to u - or none when its previous hop is the origin *)
+Definition wire_ok (n : nat) (s : net) (m : msg) (w : list (nat * nat * nat * nat)) : bool :=
   forallb (fun e =>
-    let '(u, v, k) := e in
+    let '(u, v, l, k) := e in
     Nat.leb k 1 &&
     (Nat.eqb k 0 ||
-     (seen_b u m (seen s) && pc_b u v (m_ch m) (pc s) && negb (Nat.eqb v (m_origin m))))) w &&
+     (seen_b u m (seen s) && pc_b u v l (m_ch m) (pc s) && up_b u v l (up s) && negb (Nat.eqb v (m_origin m))))) w &&
   forallb (fun u =>
     if seen_b u m (seen s) then
-      let au := map (fun e => snd (fst e))
-                    (filter (fun e => Nat.eqb (fst (fst e)) u && Nat.eqb (snd e) (m_ch m)
-                                      && negb (Nat.eqb (snd (fst e)) (m_origin m))) (pc s)) in
-      let missing := filter (fun v => Nat.eqb (wire_count w u v) 0) au in
+      let au := filter (fun e => Nat.eqb (c_u e) u && Nat.eqb (c_ch e) (m_ch m)
+                                 && negb (Nat.eqb (c_v e) (m_origin m)) && up_b u (c_v e) (c_l e) (up s)) (pc s) in
+      let missing := filter (fun e => Nat.eqb (wire_count w u (c_v e) (c_l e)) 0) au in
       if Nat.eqb u (m_origin m) then is_nil missing
       else match missing with
-           | [] => Nat.leb 1 (wire_count w (m_origin m) u)
-           | [x] => Nat.leb 1 (wire_count w x u)
-           | _ => false
+           | [] => Nat.leb 1 (wire_count_peer w (m_origin m) u)
+           | x :: _ =>
+               forallb (fun e => Nat.eqb (c_v e) (c_v x)) missing &&
+               forallb (fun e => negb (Nat.eqb (c_v e) (c_v x)) || Nat.eqb (wire_count w u (c_v e) (c_l e)) 0) au &&
+               Nat.leb 1 (wire_count_peer w (c_v x) u)
            end
     else true) (seq 0 n).
 
-Fixpoint mesh_run (fuel : nat) (n : nat) (s : net) (i : nat) (pubs : list (nat * nat))
-         (handed : list (list nat)) (wire : list (list (nat * nat * nat))) : bool :=
-  match pubs with
+Fixpoint apply_acts (s : net) (l : list nact) : net :=
+  match l with [] => s | a :: l' => apply_acts (fst (nstep s a)) l' end.
+
+Fixpoint mesh_run (fuel : nat) (n : nat) (subs : list (nat * nat)) (s : net) (i : nat) (evs : list mev)
+         (handed : list (list nat)) (wire : list (list (nat * nat * nat * nat))) : bool :=
+  match evs with
   | [] => is_nil handed && is_nil wire
-  | (o, ch) :: pubs' =>
+  | EDown u v l :: evs' =>
+      mesh_run fuel n subs (apply_acts s [PeerGone u v l; PeerGone v u l]) i evs' handed wire
+  | EUp u v l :: evs' =>
+      let s1 := apply_acts s [LinkUp u v l; LinkUp v u l] in
+      let s2 := apply_acts s1 (map (fun e => SetPC (c_u e) (c_v e) (c_l e) (c_ch e) true) (link_pc subs u v l)) in
+      mesh_run fuel n subs s2 i evs' handed wire
+  | EPub o ch :: evs' =>
       match handed, wire with
       | h :: handed', w :: wire' =>
           let m := Msg o ch i in
@@ -109,15 +133,15 @@ Fixpoint mesh_run (fuel : nat) (n : nat) (s : net) (i : nat) (pubs : list (nat *
           is_nil (flight s2) && is_nil (pubq s2) &&
           list_eqb Nat.eqb (map (fun k => count_obs (Handed k m) os) (seq 0 n)) h &&
           wire_ok n s2 m w &&
-          mesh_run fuel n s2 (S i) pubs' handed' wire'
+          mesh_run fuel n subs s2 (S i) evs' handed' wire'
       | _, _ => false
       end
   end.
 
 Definition c28_agree (c : c28_case) : bool :=
   match c with
-  | Mesh28 n edges subs pubs handed wire =>
-      mesh_run 2000 n (mesh_init edges subs) 0 pubs handed wire
+  | Mesh28 n links subs evs handed wire =>
+      mesh_run 2000 n subs (mesh_init links subs) 0 evs handed wire
   end.
 
 (* ---------- C29 ---------- *)
